@@ -306,6 +306,26 @@ def independent (f g : QField) : Bool :=
   disjoint (fieldTagDefs f) (fieldTagUses g) && disjoint (fieldTagDefs g) (fieldTagUses f) &&
     disjoint (fieldTagDefs f) (fieldTagDefs g)
 
+def dirOutNames : Dir → List Name
+  | .output n => [n]
+  | _ => []
+
+/-- Two adjacent selections, at least one of which is a property, may change places when — if both
+are properties — they define different tag names and different output names (in a valid query all
+names are distinct). -/
+def swapPropsOK : QField → QField → Bool
+  | .prop _ d1, .prop _ d2 =>
+    disjoint (d1.flatMap dirTagDefs) (d2.flatMap dirTagDefs) &&
+      disjoint (d1.flatMap dirOutNames) (d2.flatMap dirOutNames)
+  | .prop .., .edge .. => true
+  | .edge .., .prop .. => true
+  | .edge .., .edge .. => false
+
+/-- Two adjacent edges may change places when neither reads a tag the other defines and they define
+different tag names and different output names. -/
+def swapEdgesOK (f g : QField) : Bool :=
+  !isProp f && !isProp g && independent f g && disjoint (outNamesFields [f]) (outNamesFields [g])
+
 /-! #### a parameterised edge as a filter -/
 
 /-- Put the selection `prop @filter(op, arg)` in front of the fields of a node. -/
